@@ -21,9 +21,16 @@ struct Sink {
 /// process-wide capture (all threads), used by the FFI checks whose library threads are not ours
 static GLOBAL_ON: std::sync::atomic::AtomicBool = std::sync::atomic::AtomicBool::new(false);
 static GLOBAL_BUF: std::sync::Mutex<Vec<u8>> = std::sync::Mutex::new(Vec::new());
+static GLOBAL_TIMED: std::sync::Mutex<Vec<(std::time::Instant, String)>> = std::sync::Mutex::new(Vec::new());
+
+/// formatted records with the instant at which they were written (global capture only)
+pub fn take_global_timed() -> Vec<(std::time::Instant, String)> {
+    std::mem::take(&mut *GLOBAL_TIMED.lock().unwrap())
+}
 
 pub fn capture_global(on: bool) {
     GLOBAL_BUF.lock().unwrap().clear();
+    GLOBAL_TIMED.lock().unwrap().clear();
     GLOBAL_ON.store(on, std::sync::atomic::Ordering::SeqCst);
 }
 
@@ -38,6 +45,10 @@ impl Write for SinkWriter {
     fn write(&mut self, data: &[u8]) -> std::io::Result<usize> {
         if GLOBAL_ON.load(std::sync::atomic::Ordering::Relaxed) {
             GLOBAL_BUF.lock().unwrap().extend_from_slice(data);
+            GLOBAL_TIMED
+                .lock()
+                .unwrap()
+                .push((std::time::Instant::now(), String::from_utf8_lossy(data).into_owned()));
         }
         SINK.with(|s| {
             let mut s = s.borrow_mut();
